@@ -4,7 +4,7 @@
     Trees may be conflicted (any odd number of terms); "the value of X at p" is the list
     of the terms' values, compared through its net counts [den]. *)
 From Verif Require Import Base.Prelude Model.Merge Model.TreeMerge Model.TreeCase Model.Rebase Model.C08.
-From Verif Require Import Proofs.TreeValue Proofs.TreeMerge Proofs.C07 Proofs.C08 Proofs.MergeIdentities Proofs.ThereBack Proofs.C08Full.
+From Verif Require Import Proofs.TreeValue Proofs.TreeMerge Proofs.C07 Proofs.C08 Proofs.MergeIdentities Proofs.ThereBack Proofs.C08Full Proofs.GraphCA.
 Local Open Scope Z_scope.
 
 Section Statements.
@@ -96,6 +96,22 @@ Section Statements.
   Proof. exact (frmc_terminates common_ancestors root). Qed.
 End Statements.
 
+(** The executable graph specification of Index::common_ancestors that the correspondence
+    runs use (greatest common ancestors, computed from the parent table) satisfies the
+    hypothesis of C08_merge_commits_terminates whenever parents have smaller positions than
+    their children; so with it find_recursive_merge_commits terminates with fuel above the
+    largest position involved. *)
+Theorem C08_graph_ca_below : forall parents : list (list nat),
+  wf_parents parents -> ca_below (graph_common_ancestors parents).
+Proof. exact graph_ca_below. Qed.
+Theorem C08_merge_commits_terminates_graph : forall (parents : list (list nat)) root fuel ids,
+  wf_parents parents ->
+  ((2 <= length ids)%nat -> (bound ids < fuel)%nat) ->
+  exists m, find_recursive_merge_commits (graph_common_ancestors parents) root fuel ids = Some m.
+Proof.
+  intros parents root fuel ids Hwf. apply frmc_terminates. now apply graph_ca_below.
+Qed.
+
 (** The two laws for the tree the rebase finally returns, conflicted results included (all
     rounds of the resolve loop: Proofs/ResolveLoop.v). *)
 Theorem C08_full :
@@ -154,6 +170,7 @@ Proof. reflexivity. Qed.
 
 Print Assumptions C08_same_parents.
 Print Assumptions C08_full.
+Print Assumptions C08_merge_commits_terminates_graph.
 Print Assumptions C08_there_and_back.
 Print Assumptions C08_equal_bases_general.
 Print Assumptions C08_unchanged_paths.
